@@ -840,7 +840,7 @@ func c14(r *core.Run) {
 		}
 	})
 
-	r.Check("D3/K2/choose-lower-load-or-stale", "choose returns one of its two candidates: the one with the lower load, or the other one only when it was not picked for more than 1 s (now − pick > 1e9 ns)", func(o *core.O) {
+	r.Check("D3/K2/choose-lower-load-or-stale", "choose returns one of its two candidates: the one with the lower load, or the other one only when it was not picked for more than 1 s (now − pick > 1e9 ns); conversely the lower-load one is preferred over the other only where that staleness test or the claiming compare-and-swap failed (no further condition keeps a stale connection from being probed)", func(o *core.O) {
 		if !o.Need(len(loads) > 0 && pick != nil, "load function / Pick") {
 			return
 		}
@@ -1032,5 +1032,41 @@ func c14Choose(o *core.O, p *core.Prog, f *ssa.Function, cmp *ssa.If, isNow func
 	}
 	if nLow == 0 {
 		o.Fail(p.Pos(f.Pos()), "choose never returns the lower-load candidate")
+	}
+	// the converse (every connection is probed about once per second): the lower-load candidate
+	// is preferred over a stale higher-load one only when the staleness test or the claim (CAS) failed
+	var hv ssa.Value
+	for _, b := range f.Blocks {
+		for _, in := range b.Instrs {
+			if ph, ok := in.(*ssa.Phi); ok && class(ph) == "high" {
+				hv = ph
+			}
+		}
+	}
+	if hv == nil {
+		return
+	}
+	staleH := core.Cmp(token.GTR, func(d ssa.Value) bool {
+		s, ok := d.(*ssa.BinOp)
+		if !ok || s.Op != token.SUB || !isNow(s.X) {
+			return false
+		}
+		c, ok := s.Y.(*ssa.Call)
+		return ok && gxAtomicOn("subConn.pick", "LoadInt64")(c) && gxFieldBase(c.Call.Args[0]) == hv
+	}, core.IsConstInt(1e9))
+	claimed := core.BoolVal(func(v ssa.Value) bool {
+		c, ok := v.(*ssa.Call)
+		return ok && gxAtomicOn("subConn.pick", "CompareAndSwapInt64")(c) && gxFieldBase(c.Call.Args[0]) == hv
+	})
+	if core.EdgeCount(f, staleH) == 0 {
+		return // reported above
+	}
+	for _, ret := range core.Returns(f) {
+		if class(core.Result(ret, 0)) != "low" {
+			continue
+		}
+		if w := core.Requires(f, core.Is(ret), core.Not(staleH), core.Not(claimed)); w != nil {
+			o.Fail(p.InstrPos(ret), "choose can prefer the lower-load candidate although the other one was not picked for more than 1 s and could be claimed: a further condition stands between the staleness test and the forced pick, so a connection that fails it (e.g. an unhealthy one) is never probed again and cannot recover")
+		}
 	}
 }
